@@ -212,6 +212,16 @@ func (pc pctx) facts(extra map[string]string) map[string]string {
 	return m
 }
 
+func (pc pctx) below() string {
+	switch {
+	case pc.belowRequires:
+		return "requires"
+	case pc.belowResolver:
+		return "resolver"
+	}
+	return "plain"
+}
+
 func listDepthOf(t *gast.Type) int {
 	n := 0
 	for t.Elem != nil {
@@ -233,6 +243,8 @@ type posRec struct {
 	path  string // origin path
 	value string
 	jpath string
+	where string // Type.field
+	below string // plain | resolver | requires: the nearest non-plain field at or above the position
 }
 
 type acc struct {
@@ -302,7 +314,7 @@ func typeText(t *gast.Type) string { return t.String() }
 
 func (o *oracle) value(a *acc, pc pctx, t *gast.Type, g *group, where string, v any, jpath, opath string, cur cursor) {
 	if v == nil {
-		a.pos = append(a.pos, posRec{opath, "null", jpath})
+		a.pos = append(a.pos, posRec{opath, "null", jpath, where, pc.below()})
 		switch {
 		case cur.known && cur.present:
 			kind := "projection.null-for-present-data"
@@ -340,7 +352,7 @@ func (o *oracle) value(a *acc, pc pctx, t *gast.Type, g *group, where string, v 
 				msg: fmt.Sprintf("%s has list type %s but the answer holds %s", where, typeText(t), rawJSON(v)), facts: pc.facts(map[string]string{"position": where})})
 			return
 		}
-		a.pos = append(a.pos, posRec{opath, fmt.Sprintf("list(%d)", len(arr)), jpath})
+		a.pos = append(a.pos, posRec{opath, fmt.Sprintf("list(%d)", len(arr)), jpath, where, pc.below()})
 		if cur.known && cur.present && cur.kind == cList && cur.list.Len() != len(arr) {
 			a.viol = append(a.viol, shapeViolation{kind: "projection.list-length", path: jpath, where: where,
 				msg: fmt.Sprintf("%s has %d items in the answer, the service data has %d", where, len(arr), cur.list.Len()), facts: pc.facts(map[string]string{"position": where})})
@@ -372,7 +384,7 @@ func (o *oracle) value(a *acc, pc pctx, t *gast.Type, g *group, where string, v 
 	}
 	switch def.Kind {
 	case gast.Scalar, gast.Enum:
-		a.pos = append(a.pos, posRec{opath, rawJSON(v), jpath})
+		a.pos = append(a.pos, posRec{opath, rawJSON(v), jpath, where, pc.below()})
 		a.count("leaf_values_checked", 1)
 		if msg := o.scalarKind(def, v); msg != "" {
 			a.viol = append(a.viol, shapeViolation{kind: "shape.scalar-kind", path: jpath, where: where,
@@ -395,7 +407,7 @@ func (o *oracle) value(a *acc, pc pctx, t *gast.Type, g *group, where string, v 
 				msg: fmt.Sprintf("%s has composite type %s but the answer holds %s", where, typeText(t), rawJSON(v)), facts: pc.facts(map[string]string{"position": where})})
 			return
 		}
-		a.pos = append(a.pos, posRec{opath, "object", jpath})
+		a.pos = append(a.pos, posRec{opath, "object", jpath, where, pc.below()})
 		o.object(a, pc, t.NamedType, g.children(), where, obj, jpath, opath, cur)
 	}
 }
@@ -590,9 +602,25 @@ func (o *oracle) object(a *acc, pc pctx, typeName string, sels []*node, where st
 	}
 	// no possible type fits: report against the most plausible one (the one the answer names
 	// through a selected __typename, else the one with the fewest deviations)
+	// (keys the selection does not ask for weigh more than keys that are lacking; a lacking
+	// resolver/@requires field says least about the type: it is filled in by a separate RPC)
+	score := func(t trialT) int {
+		n := 0
+		for _, v := range t.a.viol {
+			switch {
+			case v.path == jpath && v.kind == "shape.extra-key":
+				n += 10000
+			case v.path == jpath && v.kind == "shape.missing-key" && (v.facts["field_kind"] == "resolver" || v.facts["field_kind"] == "requires"):
+				n++
+			default:
+				n += 100
+			}
+		}
+		return n
+	}
 	pick := all[0]
 	for _, t := range all {
-		if len(t.a.viol) < len(pick.a.viol) {
+		if score(t) < score(pick) {
 			pick = t
 		}
 	}
@@ -727,7 +755,7 @@ func (o *oracle) objectAs(a *acc, pc pctx, runtime string, abstract bool, sels [
 			continue
 		}
 		if g.name == "__typename" {
-			a.pos = append(a.pos, posRec{sub, rawJSON(v), jpath + "." + g.key})
+			a.pos = append(a.pos, posRec{sub, rawJSON(v), jpath + "." + g.key, fwhere, pc.below()})
 			s, ok := v.(string)
 			if !ok || s != runtime {
 				a.viol = append(a.viol, shapeViolation{kind: "shape.typename", path: jpath + "." + g.key, where: fwhere,
@@ -758,7 +786,6 @@ func (o *oracle) objectAs(a *acc, pc pctx, runtime string, abstract bool, sels [
 		switch kind {
 		case "resolver":
 			cpc.belowResolver = true
-			cpc.resolverDepth++
 			a.observe("field_resolvers_answered", fwhere)
 			if rm, ok := o.mp.ResolveRPCs[runtime][g.name]; ok {
 				ccur = o.batchResult(a, rm.RPC, rm.FieldMappingData.TargetName, jpath+"."+g.key)
